@@ -129,6 +129,22 @@ theorem sharedRep_normWith (f : BinOp → Bool) (sh : Shared) (e : Expr) : share
     · simp [h, sharedRep]
   | _ => simp [normWith, sharedRep]
 
+theorem attach_top (o : BinOp) (l r : Expr) : ∃ x y, attach o l r = .bin o x y := by
+  cases r with
+  | bin o' r1 r2 => unfold attach; by_cases ho : o' = o <;> simp [ho]
+  | _ => simp [attach]
+
+theorem indexParen_normWith (f : BinOp → Bool) (e : Expr) : indexParen (normWith f e) = indexParen e := by
+  cases e with
+  | bin o a b =>
+    unfold normWith
+    by_cases h : f o = true
+    · rw [if_pos h]
+      obtain ⟨x, y, hxy⟩ := attach_top o (normWith f a) (normWith f b)
+      rw [hxy]; simp [indexParen]
+    · rw [if_neg h]; simp [indexParen]
+  | _ => simp [normWith, indexParen]
+
 theorem count_normWith_lit (f : BinOp → Bool) (c : Expr) : countTok (normWith f c) = countTok c := by
   cases c with
   | bin o a b =>
@@ -181,14 +197,14 @@ theorem toks_norm_all (sh : Shared) (e : Expr) :
   | group a f ih => exact ⟨fun p q => by simp [norm, normWith, toks]; exact ih.1 true none |> fun h => by simpa [norm] using h, fun _ => by simp [norm, normWith, argToks], fun _ => by simp [norm, normWith, itemToks]⟩
   | index a i iha ihi =>
     refine ⟨fun p q => ?_, fun _ => by simp [norm, normWith, argToks], fun _ => by simp [norm, normWith, itemToks]⟩
-    have h1 := iha.1 true none; have h2 := ihi.1 false none
+    have h1 := iha.1 true none; have h2 := ihi.1 (indexParen i) none
     simp only [norm] at h1 h2 ⊢
-    simp [normWith, toks, h1, h2]
+    simp [normWith, toks, h1, h2, indexParen_normWith]
   | range a i j iha ihi ihj =>
     refine ⟨fun p q => ?_, fun _ => by simp [norm, normWith, argToks], fun _ => by simp [norm, normWith, itemToks]⟩
-    have h1 := iha.1 true none; have h2 := ihi.1 false none; have h3 := ihj.1 false none
+    have h1 := iha.1 true none; have h2 := ihi.1 (indexParen i) none; have h3 := ihj.1 (indexParen j) none
     simp only [norm] at h1 h2 h3 ⊢
-    simp [normWith, toks, h1, h2, h3]
+    simp [normWith, toks, h1, h2, h3, indexParen_normWith]
   | query v s c ihs ihc =>
     refine ⟨fun p q => ?_, fun _ => by simp [norm, normWith, argToks], fun _ => by simp [norm, normWith, itemToks]⟩
     have h1 := ihs.1 true none; have h2 := ihc.1 true none
